@@ -41,6 +41,20 @@ def main(tier):
                 ties_broken.append(("checkTree fails on the real tree of %s" % label, {"isa": label}, ans, None))
             if any(s.mask.size < 8 for s in specs):
                 ties_broken.append(("a spec of %s has no bytes (hypothesis of length_pos)" % label, {"isa": label}, None, None))
+            # longer specs by their leading fixed byte(s) as they appear in the byte stream: a decoded
+            # instruction is also tried with the continuation of every longer spec that starts like it
+            e_ = -1 if I.be else 1
+            longer = {}
+            for s_ in specs:
+                if s_.pfx is True or s_.mask.size < 16:
+                    continue
+                try:
+                    probe = isa.directed_bytes(s_, e_, r, tail=0)
+                    other = isa.directed_bytes(s_, e_, r, tail=0)
+                except Exception:
+                    continue
+                if probe[:1] == other[:1]:
+                    longer.setdefault(probe[:1], []).append(s_)
             for kind, bs in isa.gen_inputs(I, specs, r, ndir, nrand):
                 with isa.AttemptTrace() as tr0:
                     res = isa.real_decode(d, bs)
@@ -69,6 +83,13 @@ def main(tier):
                 variants.append(("tail", bs[:n] + b"\xff" * 8))
                 if n <= I.maxlen:
                     variants.append(("window", bs[: I.maxlen]))
+                if i.spec.size != 0 and not I.be:
+                    # the consumed bytes followed by what a longer spec with the same leading byte expects next
+                    for s_ in [x for x in longer.get(bs[:1], []) if x.mask.size > 8 * n][:4]:
+                        for _ in range(2):
+                            v = isa.directed_bytes(s_, e_, r, tail=4)
+                            if v[:n] == bs[:n] or n == 1:
+                                variants.append(("tail", bs[:n] + v[n:]))
                 for vk, v in variants:
                     with isa.AttemptTrace() as tr1:
                         res2 = isa.real_decode(d, v)
